@@ -244,6 +244,18 @@ func runC20Case(c *fw.Ctx, id string, cs c20Case) {
 			}
 			return nil
 		}
+	case "probe-opening":
+		// a region is still opening when it is first probed; its server already
+		// serves other regions of this client: nothing is wrong with the connection
+		var probes sync.Map
+		cl.OnRequest = func(req *sim.Request) *sim.Reply {
+			if req.Single != nil && req.Single.Kind() == "exists" && req.Single.OpID == "" && string(req.Single.Region) != string(sim.MetaRegionName) {
+				if _, seen := probes.LoadOrStore(string(req.Single.Region), true); !seen && sim.Hash32(string(req.Single.Region))%2 == 0 {
+					return &sim.Reply{Exc: &sim.Exc{Class: sim.ExcRegionOpening}}
+				}
+			}
+			return nil
+		}
 	case "abort-exc":
 		cl.OnRequest = func(req *sim.Request) *sim.Reply {
 			if req.Multi != nil && req.Server != "rs0:16020" && atomic.CompareAndSwapInt32(&faultOnce, 0, 1) {
@@ -322,7 +334,10 @@ func runC20Case(c *fw.Ctx, id string, cs c20Case) {
 		c.Violate(id, "conn:request-failed", fmt.Sprintf("%d request(s) failed: %s", n, cs), cs)
 	}
 	time.Sleep(5 * time.Millisecond)
-	dl.judge(c, id, cs.String(), cs.Fault == "" || cs.Fault == "split-lonely", true)
+	dl.judge(c, id, cs.String(), cs.Fault == "" || cs.Fault == "split-lonely" || cs.Fault == "probe-opening", true)
+	if cs.Fault == "probe-opening" {
+		c.Count("probe_opening_runs", 1)
+	}
 	c.Count("first_user_bursts", 1)
 	c.Max("max_concurrent_first_users", int64(cs.Users))
 }
@@ -334,7 +349,7 @@ func init() {
 		Rule: "seeded runs: 1..3 servers, 1..32 regions, 1..128 concurrent first users released by a barrier with random keys, " +
 			"then 0..20 later sequential discoveries; fault in {none, reset of all connections during the burst, abort exception " +
 			"closing the connection, first dial refused, read error on the first connection, in-place split of a region that is " +
-			"alone on its server (no connection fails)}. The client-side dial log must show " +
+			"alone on its server, first probe of a region answered 'region opening' (in both no connection fails)}. The client-side dial log must show " +
 			"one dial per address in fault-free runs, every re-dial only after all earlier connections to that address were closed " +
 			"by the client, and at most one open connection per address at quiescence. distinct = configuration+seed; non-trivial " +
 			"= more than one region or more than one first user",
@@ -346,7 +361,7 @@ func init() {
 			return fw.Plan{Batches: 8, Parallel: 8, Timeout: 6 * time.Minute}
 		},
 		Floors: func(tier string) map[string]int64 {
-			return map[string]int64{"first_user_bursts": 600, "addresses_checked": 200, "redial_justifications_checked": 30, "fault_free_runs": 40, "in_place_splits": 40}
+			return map[string]int64{"first_user_bursts": 600, "addresses_checked": 200, "redial_justifications_checked": 30, "fault_free_runs": 40, "in_place_splits": 40, "probe_opening_runs": 40}
 		},
 		Run: func(c *fw.Ctx) {
 			r := c.Rand("c20")
@@ -354,7 +369,7 @@ func init() {
 			for i := 0; i < n; i++ {
 				cs := c20Case{Seed: r.Int63(), Servers: 1 + r.Intn(3), Regions: []int{1, 2, 4, 8, 16, 32}[r.Intn(6)],
 					Users: []int{1, 2, 8, 32, 128}[r.Intn(5)], Later: r.Intn(21), Queue: []int{1, 5, 100}[r.Intn(3)],
-					Fault: []string{"", "", "reset", "abort-exc", "dial-fail-once", "read-error", "split-lonely"}[r.Intn(7)]}
+					Fault: []string{"", "", "reset", "abort-exc", "dial-fail-once", "read-error", "split-lonely", "probe-opening"}[r.Intn(8)]}
 				if cs.Fault == "split-lonely" {
 					cs.Servers = 2 + r.Intn(2)
 					if cs.Regions < 2 {
